@@ -342,6 +342,82 @@ def _replay_path(args):
     return out
 
 
+def random_history(args):
+    """A longer random history of the real ExitStack, recorded in the vocabulary of the spec."""
+    import random  # noqa: PLC0415
+
+    seed, = args
+    rnd = random.Random(seed)
+    L = tm.load_lib()
+    w = World(seed % 5)
+    stack = L.ExitStack()
+    stacks = {"main": stack, "moved": None}
+    ev, nent = [], 0
+    behs = ["falsy", "truthy", "raise", "raisewh", "reraise"]
+    for _ in range(rnd.randint(4, 12)):
+        x = rnd.random()
+        if x < 0.5 and nent < 7:
+            k, b = rnd.choice(["exit", "exit", "cb"]), rnd.choice(behs)
+            nent += 1
+            ra, _, _ = w.make(nent, concrete(nent, k, seed % 5), b)
+            r = run(ra(stack), w.acct)
+            if r[0] != "ok":
+                return {"ev": ev, "error": f"register raised {r[1]!r}"}
+            ev.append({"op": "register", "e": nent, "k": k, "b": b})
+        elif x < 0.56:
+            class Failing:
+                async def __aenter__(self):
+                    raise EnterError()
+
+                async def __aexit__(self, *a):
+                    w.log.append((0, "failed-enter-exited"))
+            run(stack.enter_context(Failing()), w.acct)
+            ev.append({"op": "enterfail"})
+        elif x < 0.64 and stacks["moved"] is None:
+            stacks["moved"] = stack.pop_all()
+            ev.append({"op": "popall"})
+        else:
+            which = "moved" if (stacks["moved"] is not None and rnd.random() < 0.4) else "main"
+            xx = 100 if rnd.random() < 0.5 else 0
+            acl = xx == 0 and rnd.random() < 0.5
+            lab = {("main", True): "aclose", ("main", False): "leave", ("moved", True): "aclose2", ("moved", False): "leave2"}[(which, acl)]
+            w.block = BlockError() if xx else None
+            start = len(w.log)
+            tgt = stacks[which]
+            if acl:
+                res = run(tgt.aclose(), w.acct)
+            else:
+                res = run(tgt.__aexit__(type(w.block) if xx else None, w.block, None), w.acct)
+            ev.append({"op": "begin", "which": which, "x": xx, "lab": lab})
+            for e, seen in w.log[start:]:
+                ev.append({"op": "exit", "e": e, "seen": seen})
+            out = outcome_of(w, res, bool(xx))
+            ev.append({"op": "finish", "label": out[0], "id": out[1]})
+    return {"ev": ev, "error": None, "acct_ok": w.acct.ok()}
+
+
+def beyond_bounds(tier, seed, v):
+    from .tracecheck import validate  # noqa: PLC0415
+
+    n = 500 if tier == "quick" else 10000
+    with mp.Pool(min(16, os.cpu_count() or 4)) as pool:
+        hs = pool.map(random_history, [(seed * 69621 % (2 ** 31) + i,) for i in range(n)], chunksize=32)
+    for h in hs:
+        if h["error"]:
+            v.violation("C14/ExitStack/operation-raises", {"engine": "exitstack", "mode": "random", "observed": h["error"], "history": h["ev"][-5:]})
+    hs = [h for h in hs if not h["error"]]
+    const = cfg_text(8, 1000, edges=False)
+    const = const[: const.index("INIT Init")]
+    rejected, st = validate("ExitStackTrace", [{"cfg": {}, "ev": h["ev"]} for h in hs], extra_cfg=const, spec="Spec2")
+    for idx, matched in rejected.items():
+        h = hs[idx]
+        bad = h["ev"][matched] if matched < len(h["ev"]) else {"op": "missing-events"}
+        v.violation(f"C14/ExitStack/trace-rejected-at-{bad.get('op')}",
+                    {"engine": "exitstack", "mode": "trace", "spec": "ExitStackTrace", "step": matched,
+                     "matched_prefix": h["ev"][max(0, matched - 6): matched], "rejected_event": bad})
+    return st
+
+
 def cfg_text(maxent, maxops, edges=True):
     return f"""CONSTANTS
   MaxEntries = {maxent}
@@ -383,6 +459,7 @@ def check(prop, tier, seed, into=None):
         tot["replays"] += len(jobs)
         if paths:
             v.sample({"history": [e["a"] for e in paths[len(paths) // 2]]})
+    tstats = beyond_bounds(tier, seed, v) if into is None else {}
     v.assumptions += ["entry kinds of one class (exit / callback) behave alike in the spec; the replay rotates the concrete kinds",
                       "twins: the recursively built nested `async with` statements and contextlib.AsyncExitStack (both must agree with the spec on every replay)"]
     vac = dict(label_counts)
@@ -391,7 +468,7 @@ def check(prop, tier, seed, into=None):
         raise MachineryError(f"vacuity guard: actions never taken in the explored graphs: {missing}")
     return v.finish({
         "states": tot["states"], "transitions": tot["transitions"], "traces_validated_against_impl": tot["replays"],
-        "edge_cover_paths": tot["paths"], "exhaustive": True, "vacuity_guard_actions_taken": vac, "evaluations": tot["replays"], "distinct_nontrivial": tot["paths"],
+        "edge_cover_paths": tot["paths"], "exhaustive": True, "vacuity_guard_actions_taken": vac, "random_histories_validated_by_TLC": tstats, "evaluations": tot["replays"], "distinct_nontrivial": tot["paths"],
         "configs": TIERS[tier], "rule": "one replay per transition of the ExitStack state graph and kind rotation; distinct by construction",
         "checker_cmd": "tlc spec/ExitStack.tla (INVARIANTs NestedEq, Once, OnlyOwner)",
     })
